@@ -455,7 +455,10 @@ void GPIO_ICACHE_FLASH supla_esp_gpio_rs_move_position(
     // This part of code is executed only for "MOVE UP/DOWN" actions (either
     // from physical buttons or in app). It is not executed when new position
     // is given in % value.
-    if ((*time) / 1000 >=
+    // A positioning task applies its own end-stop margin in
+    // supla_esp_gpio_rs_task_processing and continues with the tilt afterwards
+    if (rs_cfg->task.state == RS_TASK_INACTIVE &&
+        (*time) / 1000 >=
         (int)(full_time_ms * (1.0 * rs_cfg->rs_time_margin / 100.0))) {
       int idx = supla_esp_gpio_rs_get_idx_by_ptr(rs_cfg);
       if (idx >= 0) {
